@@ -3,6 +3,8 @@
   Core Lean only (built as `lean_exe drv`).
 -/
 import Driver.Proto
+import Driver.PersistStream
+import Driver.HwmonStream
 import Fan2go.Model.ControlLoop
 import Fan2go.Model.Curves
 import Fan2go.Model.Fan
@@ -17,6 +19,8 @@ structure St where
   sensors : SensorTable := []
   fan : FanSt := {}
   world : World := { fan := {}, dev := {}, ctl := {} }
+  ps : PersistDrvSt := {}
+  hw : HwmonDrvSt := {}
   snKind : SensorKind := .file
   snAvg : F64 := F64.zero
   snWin : Int := 10
@@ -332,6 +336,8 @@ def step (st : St) (line : String) : St × String :=
     | "fan" => opFan st op a
     | "w" => opWorld st op a
     | "sn" => opSensor st op a
+    | "hw" => let (h, out) := hwmonStep st.hw op a; ({ st with hw := h }, out)
+    | "ps" => let (p, o) := persistStep st.ps op a; ({ st with ps := p }, o)
     | _ => (st, "bad-op")
 
 partial def loop (hin : IO.FS.Stream) (hout : IO.FS.Stream) (st : St) : IO Unit := do
